@@ -12,6 +12,7 @@ package props
 
 import (
 	"fmt"
+	"net"
 	"regexp"
 	"sort"
 	"strings"
@@ -201,6 +202,10 @@ func c17Engine(c *lab.Ctx) {
 		add(c17Route{Kind: "redirect", RedirCode: 301, RedirPath: "/moved"})
 		add(c17Route{Kind: "redirect", RedirCode: 302, RedirHost: "other.test"})
 		add(c17Route{Kind: "redirect", RedirCode: 307, RedirScheme: "https", RedirHost: "sec.test", RedirPath: "/s"})
+		add(c17Route{Kind: "redirect", RedirCode: 308, RedirScheme: "https"})
+		add(c17Route{Kind: "redirect", RedirCode: 301, RedirScheme: "https", RedirHost: "sec.test:80"})
+		add(c17Route{Kind: "redirect", RedirCode: 302, RedirScheme: "https", RedirHost: "sec.test:443", RedirPath: "/t"})
+		add(c17Route{Kind: "redirect", RedirCode: 302, RedirScheme: "http", RedirHost: "plain.test:80"})
 		add(c17Route{Kind: "direct", DirStatus: 200, DirBody: "hello-" + rng.Alnum(5)})
 		add(c17Route{Kind: "direct", DirStatus: 403})
 		add(c17Route{Kind: "direct", DirStatus: 503, DirBody: "busy"})
@@ -497,9 +502,10 @@ func c17Engine(c *lab.Ctx) {
 								query = "q=" + rng.Alnum(2)
 								req.Path += "?" + query
 							}
-							req.Host = "orig.test"
+							// the Host value with and without an explicit port (default and other ports)
+							req.Host = rng.PickStr("orig.test", "orig.test", "orig.test:80", "orig.test:8080", "orig.test:443")
 						}
-						c.Case("c17 %s %s route=%s token=%s", r.Kind, proto, r.Key, t)
+						c.Case("c17 %s %s route=%s host=%s token=%s", r.Kind, proto, r.Key, req.Host, t)
 						ev := cl.do(req)
 						c.Eval(1)
 						wit := map[string]interface{}{"proto": proto, "route": fmt.Sprintf("%+v", r), "status": ev.Status, "headers": fmt.Sprint(ev.Headers), "body_len": ev.BodyLen}
@@ -515,7 +521,7 @@ func c17Engine(c *lab.Ctx) {
 							if ev.Status != r.RedirCode {
 								c.Violation("redirect-status", "C17/redirect/status/"+proto, fmt.Sprintf("route %s: status %d, configured %d", r.Key, ev.Status, r.RedirCode), wit)
 							}
-							scheme, host, path := "http", "orig.test", strings.SplitN(req.Path, "?", 2)[0]
+							scheme, host, path := "http", req.Host, strings.SplitN(req.Path, "?", 2)[0]
 							if r.RedirScheme != "" {
 								scheme = r.RedirScheme
 							}
@@ -524,6 +530,13 @@ func c17Engine(c *lab.Ctx) {
 							}
 							if r.RedirPath != "" {
 								path = r.RedirPath
+							}
+							if scheme != "http" {
+								// the scheme changes (the listener is plain HTTP): an explicit default port of the ORIGINAL scheme is dropped
+								// (http -> :80; the https -> :443 half needs a TLS listener and is not produced here), any other port stays
+								if h, p, err := net.SplitHostPort(host); err == nil && p == "80" {
+									host = h
+								}
 							}
 							want := scheme + "://" + host + path
 							if query != "" {
